@@ -375,7 +375,7 @@ func plainMessage(m *ir.Message) bool {
 func jsonNames(m *ir.Message) []string {
 	var out []string
 	for _, f := range m.Fields {
-		out = append(out, ir.JSONName(f.Name))
+		out = append(out, f.JSON())
 	}
 	sort.Strings(out)
 	return out
